@@ -17,6 +17,7 @@ type jsonRow struct {
 	TagLen int
 	Panics bool
 	Pos    token.Pos
+	Codes  map[string]bool // every type code the clause can emit
 }
 
 // tagVarBytes: length of the tag a package-level tag variable holds
@@ -91,7 +92,7 @@ func jsonWriterTable(p *Prog, fnName, codecMethod, codeFunc string) ([]jsonRow, 
 	var rows []jsonRow
 	for _, st := range ts.Body.List {
 		cc := st.(*ast.CaseClause)
-		row := jsonRow{Pos: cc.Pos()}
+		row := jsonRow{Pos: cc.Pos(), Codes: map[string]bool{}}
 		if len(cc.List) == 0 {
 			row.GoType = "default"
 		} else {
@@ -122,6 +123,9 @@ func jsonWriterTable(p *Prog, fnName, codecMethod, codeFunc string) ([]jsonRow, 
 				arg := call.Args[len(call.Args)-1]
 				if conv, ok := ast.Unparen(arg).(*ast.CallExpr); ok && len(conv.Args) == 1 {
 					row.Code = constName(info, conv.Args[0])
+					row.Codes[row.Code] = true
+				} else {
+					row.Codes[exprString(p.Fset, arg)] = true
 				}
 			}
 			if cal.Name() == codecMethod {
@@ -246,6 +250,8 @@ func ruleJSONDispatch(c *Ctx) {
 		c.Oblige("T.jsondispatch", ok && s.Code == a.Code && s.Codec == a.Codec && s.TagLen == a.TagLen && a.Code != "", a.Pos, afn.Name(),
 			fmt.Sprintf("size/append agree for %s", a.GoType),
 			fmt.Sprintf("append uses (code %s, codec %s, tag %s len %d); size uses (code %s, codec %s, tag %s len %d)", a.Code, a.Codec, a.Tag, a.TagLen, s.Code, s.Codec, s.Tag, s.TagLen), nil)
+		c.Oblige("T.jsondispatch", len(a.Codes) == 1 && len(s.Codes) == 1, a.Pos, afn.Name(), fmt.Sprintf("one type code for %s", a.GoType),
+			fmt.Sprintf("a dynamic type must always be written with the same type code (append can emit %d codes, size %d): the reader maps each code to one dynamic type, so a second code brings the value back as another type (float64(2) as int)", len(a.Codes), len(s.Codes)), nil)
 		if codes[a.Code] {
 			c.Oblige("T.jsondispatch", false, a.Pos, afn.Name(), "type code "+a.Code+" used twice", "each dynamic type needs its own type code, or it cannot come back with the same dynamic type", nil)
 		}
